@@ -37,8 +37,8 @@ def gen_d(rng, tag):
     return d
 
 
-def fold(seq, foam=False):
-    cur = None
+def fold(seq, foam=False, pre=None):
+    cur = copy.deepcopy(pre)
     out = []
     for mode, d in seq:
         nd = spec.norm(c10.drop_underscore(d) if foam else d)
@@ -71,12 +71,16 @@ def process(ctx: Ctx, cases: list[dict]) -> None:
     for c in cases:
         fmt = c["fmt"]
         seq = [(m, dec(d)) for m, d in c["seq"]]
-        exp = fold(seq, foam=(fmt == "foam"))
+        pre = c.get("pre")            # a JSON target that exists before the sequence (hand-written: strings stay strings)
+        exp = fold(seq, foam=(fmt == "foam"), pre=dec(pre) if pre else None)
         ctx.case(c, any(m == "a" for m, _ in seq[1:]), (fmt,) + tuple(sorted({m if m in ("a", "w") else "junk" for m, _ in seq})))
         texts = []
         try:
             with impl.scratch() as td:
                 target = td / ("t" + {"native": "", "foam": ".foam", "json": ".json"}[fmt])
+                if pre:
+                    import json as _json
+                    target.write_text(_json.dumps(dec(pre), indent=2))
                 for step, (mode, d) in enumerate(seq):
                     reset_globals()
                     via = (c.get("via") or [])[step] if step < len(c.get("via") or []) else "dict"
@@ -141,6 +145,12 @@ def run(ctx: Ctx) -> None:
         ctx.corpus_cases += 1
         for _ in range(ctx.n(70, 1500)):
             cases.append(gen_case(rng, fmt))
+        if fmt == "json":
+            for _ in range(ctx.n(25, 400)):
+                c = gen_case(rng, fmt)
+                c["pre"] = enc({"version": "1.0", "build": "0012", "zip": "01234", "telemetry": "off", "ids": ["007", "042"], "flag": "TRUE",
+                                "nothing": "none", "n": {"p": "1e3", "keep": "text"}, rng.choice(["a", "b", "zz"]): rng.choice(["5", "x", 5])})
+                cases.append(c)
     if ctx.tier == "thorough" and ctx.scale == 1.0:
         for fmt in ("native", "json"):
             for modes in itertools.chain.from_iterable(itertools.product(["a", "w", "zz"], repeat=k) for k in range(1, 5)):
